@@ -66,6 +66,7 @@ type hcExchange struct {
 	RShort   int         `json:"rshort"` // >0: declare RBodyLen, send RShort bytes fewer, then close
 	RReset   bool        `json:"rreset"` // reset the backend connection in the middle of the body
 	RInc     bool        `json:"rincompressible"`
+	Expect100 bool       `json:"expect_100"` // the client sends "Expect: 100-continue" and holds the body back until an interim 100 (or, like real clients, for 1 s)
 	ReqGzip   bool       `json:"req_gzip"`   // C03: the client's body is gzip-compressed and labelled Content-Encoding: gzip
 	ReqShort  int        `json:"req_short"`  // C07: the client sends this many bytes fewer than its framing promises (declared length, or the chunk stream incl. its terminator), then half-closes
 	FailFirst int        `json:"fail_first"` // the first n attempts are answered 502 (a failure code) by the backend
@@ -186,6 +187,8 @@ type hcSeen struct {
 }
 
 type hcResp struct {
+	got100    bool // an interim "100 Continue" preceded this response
+	bodyHeld  bool // Expect: 100-continue and the final response arrived before any body byte was sent
 	status    int
 	hdr       http.Header
 	body      []byte
@@ -829,6 +832,9 @@ func hcEncodeRequest(id string, ex *hcExchange, hostHdr string) (head []byte, bo
 	if ex.AcceptEnc != "" {
 		fmt.Fprintf(&b, "Accept-Encoding: %s\r\n", ex.AcceptEnc)
 	}
+	if ex.Expect100 {
+		b.WriteString("Expect: 100-continue\r\n")
+	}
 	if ex.ReqGzip && len(plain) > 0 {
 		b.WriteString("Content-Encoding: gzip\r\n")
 	}
@@ -879,10 +885,24 @@ func (c *hcChain) hcDo(cc **hcConn, ci int, id string, ex *hcExchange) *hcResp {
 		conn := *cc
 		head, body, _ := hcEncodeRequest(id, ex, "front.example:10080")
 		done := make(chan struct{})
+		cont := make(chan bool) // Expect: 100-continue: true = send the body now, false = final response came first (taken only while the writer waits)
 		go func() {
 			defer close(done)
 			if _, err := conn.c.Write(head); err != nil {
 				return
+			}
+			if ex.Expect100 && len(body) > 0 {
+				t := time.NewTimer(time.Second)
+				select {
+				case ok := <-cont:
+					t.Stop()
+					if !ok {
+						return
+					}
+				case <-t.C:
+					c.r.Probe("client.expect_100_waited_in_vain_sends_body")
+				}
+				c.r.Yield("client.after_100")
 			}
 			if ex.ReqShort > 0 {
 				cut := len(body) - ex.ReqShort
@@ -902,6 +922,23 @@ func (c *hcChain) hcDo(cc **hcConn, ci int, id string, ex *hcExchange) *hcResp {
 		// time the scheduler may stall tasks: expiry means "no answer, ever"
 		conn.c.SetReadDeadline(time.Now().Add(24 * time.Hour))
 		res := hcReadResponse(conn.br, ex.Method)
+		if ex.Expect100 && len(body) > 0 {
+			if res.status == 100 && res.frameErr == "" && res.ioErr == nil {
+				c.r.Probe("client.got_100_continue")
+				select {
+				case cont <- true:
+				default:
+				}
+				res = hcReadResponse(conn.br, ex.Method)
+				res.got100 = true
+			} else {
+				select {
+				case cont <- false:
+					res.bodyHeld = true
+				default:
+				}
+			}
+		}
 		// the writer normally finished long ago; if the server answered without
 		// reading the body it may be blocked on a full window: give up the connection
 		finished := false
@@ -910,7 +947,7 @@ func (c *hcChain) hcDo(cc **hcConn, ci int, id string, ex *hcExchange) *hcResp {
 			finished = true
 		default:
 		}
-		if !finished || !res.complete || res.connClose || res.frameErr != "" || res.ioErr != nil || ex.ReqShort > 0 {
+		if !finished || !res.complete || res.connClose || res.frameErr != "" || res.ioErr != nil || ex.ReqShort > 0 || res.bodyHeld {
 			conn.c.Close()
 			<-done
 			*cc = nil
